@@ -16,6 +16,7 @@ import (
 
 	"github.com/saucelabs/forwarder"
 	"github.com/saucelabs/forwarder/verifharness/lib"
+	"github.com/saucelabs/forwarder/verifharness/wiring"
 )
 
 // payload: byte i of a direction is byte (i%8) of BigEndian64(i/8 XOR key): every 8-byte
@@ -485,6 +486,7 @@ func main() {
 	}
 	run.Floor("tunnels_verified", int64(len(routes)*n*8/10))
 	run.Floor("bytes_verified", 1<<20)
+	wiring.Run(run, "C03")
 	run.Finish()
 }
 
